@@ -59,6 +59,8 @@ type DagSpec struct {
 	Mute     bool
 	MuteFrom float64
 	MuteTo   float64
+	// Skew: creators are not equally active (some create several times more events)
+	Skew bool
 }
 
 func (e *DagEvent) fresh() *hg.Event {
@@ -117,13 +119,35 @@ func genDag(rng *rand.Rand, seed int64, sp DagSpec) *Dag {
 			}
 		}
 	}
+	weights := make([]int, sp.N)
+	totalW := 0
+	for i := range weights {
+		weights[i] = 1
+		if sp.Skew {
+			weights[i] = []int{1, 1, 2, 4, 8}[rng.Intn(5)]
+		}
+		totalW += weights[i]
+	}
+	pick := func() int {
+		x := rng.Intn(totalW)
+		for i, w := range weights {
+			if x < w {
+				return i
+			}
+			x -= w
+		}
+		return sp.N - 1
+	}
 	for len(d.Events) < sp.Events {
-		a := rng.Intn(sp.N)
+		a := pick()
 		other := ""
 		if sp.N > 1 {
-			b := rng.Intn(sp.N - 1)
-			if b >= a {
-				b++
+			b := pick()
+			for tries := 0; b == a && tries < 50; tries++ {
+				b = pick()
+			}
+			if b == a {
+				b = (a + 1) % sp.N
 			}
 			frac := float64(len(d.Events)) / float64(sp.Events)
 			if muted >= 0 && frac >= sp.MuteFrom && frac < sp.MuteTo {
@@ -290,6 +314,10 @@ type ExecOpts struct {
 	Batch  int // consensus passes every Batch insertions (<=0: once at the end)
 	Dir    string
 	ReadValues bool
+	// ProbeStraggler (workload search only): count the moments at which a round
+	// has more than a supermajority of famous witnesses, another witness still
+	// undecided, and an undetermined event seen by all the former but not the latter
+	ProbeStraggler bool
 }
 
 type EvVals struct {
@@ -308,6 +336,10 @@ type DagExec struct {
 	// MaxPendingSpan: largest (last round - oldest round with an undecided
 	// witness) seen after a consensus pass; >= 4 means a coin round voted
 	MaxPendingSpan int
+	StragglerMoments int
+	stragglerCands [][3]string // (event, undecided witness, round as string)
+	stragglerAt    []int       // insertion index at which each candidate was first seen
+	curInsert      int
 	H        *hg.Hashgraph
 	Store    hg.Store
 	Inserted int
@@ -364,6 +396,7 @@ func execDag(d *Dag, order []*DagEvent, o ExecOpts) *DagExec {
 	x.H = h
 	h.Init(peers.NewPeerSet(clonePeers(d.Peers)))
 	for i, de := range order {
+		x.curInsert = i
 		ev := de.fresh()
 		if err := h.InsertEvent(ev, true); err != nil {
 			x.Err, x.ErrAt = fmt.Errorf("InsertEvent: %w", err), i
@@ -381,6 +414,9 @@ func execDag(d *Dag, order []*DagEvent, o ExecOpts) *DagExec {
 			if pr := h.VerifPendingRounds(); len(pr) > 0 {
 				if span := store.LastRound() - pr[0][0]; span > x.MaxPendingSpan {
 					x.MaxPendingSpan = span
+				}
+				if o.ProbeStraggler {
+					probeStraggler(x, h, store, pr)
 				}
 			}
 		}
@@ -670,4 +706,105 @@ func middleBitOf(hexs string) bool {
 		return true
 	}
 	return b[len(b)/2] != 0
+}
+
+func probeStraggler(x *DagExec, h *hg.Hashgraph, store hg.Store, pending [][2]int) {
+	for _, pr := range pending {
+		ri, err := store.GetRound(pr[0])
+		if err != nil {
+			continue
+		}
+		ps, err := store.GetPeerSet(pr[0])
+		if err != nil {
+			continue
+		}
+		fws := ri.FamousWitnesses()
+		if len(fws) <= ps.SuperMajority() {
+			continue
+		}
+		var open []string
+		for _, w := range ri.Witnesses() {
+			if _, f := ri.VerifFame(w); f == "Undefined" {
+				open = append(open, w)
+			}
+		}
+		if len(open) == 0 {
+			continue
+		}
+		// events still waiting to be received, or received in this very round
+		// (so that the probe does not depend on how the code under test resolves
+		// the situation it is looking for)
+		cands := append([]string{}, h.UndeterminedEvents...)
+		for _, eh := range ri.ReceivedEvents {
+			cands = append(cands, eh)
+		}
+		for _, ev := range cands {
+			all := true
+			for _, w := range fws {
+				if s, _ := h.VerifAncestor(w, ev); !s {
+					all = false
+					break
+				}
+			}
+			if !all {
+				continue
+			}
+			for _, w := range open {
+				if s, _ := h.VerifAncestor(w, ev); !s {
+					x.stragglerCands = append(x.stragglerCands, [3]string{ev, w, fmt.Sprint(pr[0])})
+					x.stragglerAt = append(x.stragglerAt, x.curInsert)
+				}
+			}
+		}
+	}
+}
+
+// stragglerSensitive counts the recorded candidates whose undecided witness
+// ended up famous (so that the event must not be received in that round).
+func stragglerSensitive(x *DagExec) int {
+	return len(stragglerMoments(x))
+}
+
+// stragglerMoments returns the insertion indexes (in the executed order) at
+// which a sensitive situation first appeared.
+func stragglerMoments(x *DagExec) []int {
+	out := []int{}
+	seen := map[[3]string]bool{}
+	for k, c := range x.stragglerCands {
+		if seen[c] {
+			continue
+		}
+		seen[c] = true
+		var r int
+		fmt.Sscan(c[2], &r)
+		ri, err := x.Store.GetRound(r)
+		if err != nil {
+			continue
+		}
+		if _, f := ri.VerifFame(c[1]); f == "True" {
+			out = append(out, x.stragglerAt[k])
+		}
+	}
+	return out
+}
+
+func stragglerSensitiveOld(x *DagExec) int {
+	n := 0
+	seen := map[[3]string]bool{}
+	for _, c := range x.stragglerCands {
+		if seen[c] {
+			continue
+		}
+		seen[c] = true
+		var r int
+		fmt.Sscan(c[2], &r)
+		ri, err := x.Store.GetRound(r)
+		if err != nil {
+			continue
+		}
+		if _, f := ri.VerifFame(c[1]); f == "True" {
+			n++
+		}
+	}
+	return n
 }
